@@ -189,4 +189,30 @@ theorem seed_tie (pins : List Bits) :
       | .error e => .error e
       | .ok c' => .ok ((), c')) := seed_loop_tie pins _
 
+/-! ## `dump_to_file` -/
+
+theorem forLoop_append_map {α β ρ : Type} (xs : List α) (acc : List β) (g : α → β)
+    (body : α → List β → Id (Sum ρ (List β))) (hbody : ∀ x a, body x a = pure (Sum.inr (a ++ [g x]))) (k : List β → Id ρ) :
+    Py.forLoop (m := Id) xs acc body k = k (acc ++ xs.map g) := by
+  induction xs generalizing acc with
+  | nil => simp [Py.forLoop]
+  | cons x xs ih =>
+    simp only [Py.forLoop, hbody, List.map_cons]
+    show Py.forLoop xs _ _ _ = _
+    rw [ih, List.append_assoc]
+    rfl
+
+/-- **`dump_to_file` as written in the source lists exactly the full-length entries of the memo** (`IpCore.dump`), each as the pair
+(address, image) -/
+theorem dump_to_file_tie (L : Nat) (c : IpCore.Cache) :
+    Src.dump_to_file L c = (IpCore.dump L c).map (fun e => (IpCore.ofBits e.1, IpCore.ofBits e.2)) := by
+  unfold Src.dump_to_file IpCore.dump
+  show Py.forLoop _ _ _ _ = _
+  rw [forLoop_append_map _ [] (fun (e : Bits × Bits) => (IpCore.ofBits e.1, IpCore.ofBits e.2))]
+  · simp only [List.nil_append]
+    show List.map _ (List.map _ (List.filter _ c)) = _
+    rw [List.map_map]
+    congr 1
+  · intro x a; obtain ⟨b1, b2⟩ := x; rfl
+
 end Netconan.SrcTie
